@@ -13,6 +13,7 @@ pub mod stream;
 pub mod c13;
 pub mod c14;
 pub mod c15;
+pub mod c16;
 
 pub struct PropDef {
     pub meta: &'static Meta,
@@ -33,8 +34,11 @@ pub fn registry() -> Vec<PropDef> {
         PropDef { meta: &c07::META, run: c07::run, replay: c07::replay, health: c07::health },
         PropDef { meta: &stream::META_C08, run: stream::run_c08, replay: stream::replay_c08, health: stream::health_c08 },
         PropDef { meta: &stream::META_C09, run: stream::run_c09, replay: stream::replay_c09, health: stream::health_c09 },
+        PropDef { meta: &crate::sched::META_C10, run: crate::sched::run_c10, replay: crate::sched::replay_c10, health: crate::sched::health_c10 },
         PropDef { meta: &c11::META, run: c11::run, replay: c11::replay, health: c11::health },
         PropDef { meta: &c12::META_C12, run: c12::run_c12, replay: c12::replay_c12, health: c12::health_c12 },
+        PropDef { meta: &c16::META_C16, run: c16::run_c16, replay: c16::replay_c16, health: c16::health_c16 },
+        PropDef { meta: &c16::META_C17, run: c16::run_c17, replay: c16::replay_c17, health: c16::health_c17 },
         PropDef { meta: &c12::META_C20, run: c12::run_c20, replay: c12::replay_c20, health: c12::health_c20 },
         PropDef { meta: &c13::META, run: c13::run, replay: c13::replay, health: c13::health },
         PropDef { meta: &c14::META, run: c14::run_all, replay: c14::replay, health: c14::health },
